@@ -147,9 +147,11 @@ def run_mem(case):
                             i['settled'] = True
                 if cf.link is None:
                     break
+                late = bool(env.world.fault_fired)    # the link error has been raised already and is being processed: no claim about this request
                 if op['op'] == 'read':
                     acc = cf.mem.read(m, addr, ln)
-                    issued.append({'op': 'read', 'mem': mid, 'addr': addr, 'len': ln, 'accepted': bool(acc), 'snapshot': dev.mem.mems[mid].peek(addr, ln)})
+                    issued.append({'op': 'read', 'mem': mid, 'addr': addr, 'len': ln, 'accepted': bool(acc), 'snapshot': dev.mem.mems[mid].peek(addr, ln),
+                                   'maybe_superseded': late})
                 else:
                     data = _data(ln, op['seed'])
                     if op['flush']:
@@ -157,12 +159,14 @@ def run_mem(case):
                         for i in q[1:]:
                             i['maybe_superseded'] = True
                     cf.mem.write(m, addr, data, flush_queue=op['flush'])
-                    issued.append({'op': 'write', 'mem': mid, 'addr': addr, 'len': ln, 'data': data, 'accepted': True})
+                    issued.append({'op': 'write', 'mem': mid, 'addr': addr, 'len': ln, 'data': data, 'accepted': True, 'maybe_superseded': late})
                 if ln > 25 or (op['op'] == 'read' and ln > 20):
                     multi = True
                 if op['gap']:
                     s.sleep(op['gap'])
-            s.sleep(H)
+            # let everything finish: every chunk of every transfer may take the slowest reply time (plus one retry period)
+            nchunks = sum(1 + i['len'] // 20 for i in issued)
+            s.sleep(max(H, 1.5 * nchunks * (max(pol['delays'] or [0.001]) + 0.25)))
         except (Deadlock, Horizon) as e:
             out.fail('mem:hang-during-ops', repr(e)[:400])
             return out
@@ -229,8 +233,18 @@ def run_mem(case):
             if bad:
                 out.fail('mem:spurious-failure:%s' % bad[0][0], '%s: no error status was injected and the link stayed up, but %r was reported' % (desc, [(n[0], n[1], n[2]) for n in bad]))
         # ---- read data
+        ambiguous_reads = set()
+        if natural_dup:     # (explicitly injected duplicates are suppressed at delivery time once they have become ambiguous)
+            # an answer to a resent read request is byte-identical in its header to the answer a later read of the same memory
+            # expects for the same chunk address (the reply does not carry the requested length): such memories are not judged
+            for mid_ in range(len(sizes)):
+                chunks = [set(range(i['addr'], i['addr'] + max(1, i['len']), 20)) for i in issued if i['op'] == 'read' and i['mem'] == mid_]
+                if any(chunks[a_] & chunks[b_] for a_ in range(len(chunks)) for b_ in range(a_ + 1, len(chunks))):
+                    ambiguous_reads.add(mid_)
+            if ambiguous_reads:
+                out.feat('excluded-ambiguous-duplicate-read-reply')
         for i in issued:
-            if i['op'] == 'read' and i.get('result') == 'read-ok':
+            if i['op'] == 'read' and i.get('result') == 'read-ok' and i['mem'] not in ambiguous_reads:
                 want = i['snapshot']
                 if i['note'][3] != want:
                     out.fail('mem:read-data', '%s: read(%d,%d,%d) returned %s, device holds %s' % (desc, i['mem'], i['addr'], i['len'], i['note'][3].hex(), want.hex()))
